@@ -144,14 +144,45 @@ def is_test_dir(name: str) -> bool:
     return name in ("tests", "test") or name.endswith("-tests") or name.endswith("-test")
 
 
-def offered(projs: List[List[str]]) -> List[List[str]]:
+def excl_of(u: Dict[str, Any], i: int) -> List[str]:
+    return [os.path.normpath(sub) for (t, sub) in u.get("excluded", []) if t == i]
+
+
+def gen_exclusions(rng, srcs: List[List[List[str]]], pick) -> List[List[Any]]:
+    """--exclude-source directories: a project directory that has a sibling project directory EXTENDING its name
+    (core / core-utils, app / app2): only the named directory and what is below it is excluded; also a path that
+    is a mere string prefix of a project directory (no effect), and plain exclusions as control"""
+    out: List[List[Any]] = []
+    for i, projs in enumerate(srcs):
+        cands = [p for p in projs if p[0] != "."]
+        if not cands or rng.random() > 0.45:
+            continue
+        p = rng.choice(cands)
+        r = rng.random()
+        if r < 0.6:
+            sib = p[0] + rng.choice(["-utils", "2", "_ext", "-core"])
+            if all(q[0] != sib for q in projs):
+                v = pick()
+                if v == p[2]:
+                    continue
+                projs.append([sib, p[1], v])
+            out.append([i, p[0]])
+        elif r < 0.8:
+            out.append([i, p[0][:-1]])          # a string prefix of the directory name, not a directory
+        else:
+            out.append([i, p[0]])
+    return out
+
+
+def offered(projs: List[List[str]], excluded: List[str] = ()) -> List[List[str]]:
     """independent walk oracle: the project directories a source tree offers -- directories with a setup.py that
     are not (below) a never-searched directory and not (below) a test directory of another project directory"""
     dirs = {os.path.normpath(p[0]) for p in projs}
     out = []
     for p in projs:
         comps = [] if os.path.normpath(p[0]) == "." else os.path.normpath(p[0]).split("/")
-        ok = True
+        sub = os.path.normpath(p[0])
+        ok = not any(sub == ex or sub.startswith(ex + "/") for ex in excluded)
         for k, c in enumerate(comps):
             parent = "/".join(comps[:k]) or "."
             if c in SPECIAL_HERE or (is_test_dir(c) and parent in dirs):
@@ -210,7 +241,8 @@ def gen_universe(rng) -> Dict[str, Any]:
         spec = rng.choice(["", "", "", ">={v}", ">={v}", "=={v}", "<{v}", "!={v}", ">{v}", "<={v}", ">={v},<{w}"]).format(
             v=pick(), w=pick())
         reqs.append({"req": name + spec, "budget": rng.choice([None, None, 1, 2, 3]), "allow_src": rng.random() < 0.8})
-    return {"solutions": sols, "sources": srcs, "find_links": fls, "index_urls": idx, "extra": extra,
+    excluded = gen_exclusions(rng, srcs, pick)
+    return {"excluded": excluded, "solutions": sols, "sources": srcs, "find_links": fls, "index_urls": idx, "extra": extra,
             "default": default, "no_index": rng.random() < 0.12, "upgrade": up,
             "allow_pre": rng.random() < 0.3, "requests": reqs}
 
@@ -325,11 +357,12 @@ def build(mods, u: Dict[str, Any], base: str) -> Built:
         for i, ws in enumerate(u["extra"]):
             extra_urls.append("http://extra%d.test/simple" % i)
             b.locs.append(("X", extra_urls[-1]))
+    excluded_paths = [os.path.join(base, "src%d" % t, sub) for (t, sub) in u.get("excluded", [])]
     wd = os.path.join(base, "wheeldir")
     os.makedirs(wd, exist_ok=True)
     CL, P, S, T, F, M = mods["CL"], mods["P"], mods["S"], mods["T"], mods["F"], mods["M"]
     try:
-        b.repo = CL.build_repo(sol_paths, list(u["upgrade"]), src_paths, [], fl_paths, idx_urls, wd,
+        b.repo = CL.build_repo(sol_paths, list(u["upgrade"]), src_paths, excluded_paths, fl_paths, idx_urls, wd,
                                extra_index_urls=extra_urls, no_index=u["no_index"], allow_prerelease=u["allow_pre"])
     except ValueError:
         b.repo = None
@@ -731,7 +764,7 @@ def universe_tokens(mods, u: Dict[str, Any]) -> List[str]:
     srcs = []
     for i, projs in enumerate(u["sources"]):
         hs = []
-        for sub, name, ver in offered(projs):
+        for sub, name, ver in offered(projs, excl_of(u, i)):
             hs.append(("", cand_tok(enc440, name, Version(ver), "O", True, True, "", src_ts, "%d:%s" % (nid, src_label(i, sub)))))
         srcs.append(repo_tokens(mods, "T", nid, [], hs))
         nid += 1
@@ -764,8 +797,8 @@ def holders(u: Dict[str, Any], reqname: str) -> int:
     n = 0
     for lines in u["solutions"]:
         n += any(pep503(l[0]) == want for l in lines)
-    for projs in u["sources"]:
-        n += any(pep503(p[1]) == want for p in offered(projs))
+    for i, projs in enumerate(u["sources"]):
+        n += any(pep503(p[1]) == want for p in offered(projs, excl_of(u, i)))
     groups = list(u["find_links"])
     if not u["no_index"]:
         groups += list(u["index_urls"]) if u["index_urls"] else [u["default"]]
@@ -838,6 +871,10 @@ def correspondence(ctx: Ctx) -> None:
                                                  "nested" if any("/" in p[0] for p in projs) else "flat"))
                     if len(offered(projs)) < len(projs):
                         ctx.count("source-tree:holds-a-project-that-is-not-offered")
+            for t, sub in u.get("excluded", []):
+                names = [p[0] for p in u["sources"][t]]
+                ctx.count("exclude-source:" + ("sibling-extends-name" if any(n != sub and n.startswith(sub) and not n.startswith(sub + "/") for n in names)
+                                                else "plain"))
             for rq in u["requests"]:
                 obs = run_request(mods, b, rq)
                 rt = rq_tokens(mods, rq["req"])
@@ -972,7 +1009,7 @@ def coq_recheck(ctx: Ctx, mods, items: List[Tuple[Dict[str, Any], str]]) -> None
             hs = ["({}, {})".format('""', ccand(pkg_resources.safe_name(n), Version(v), "Source", True, True, "", [0, 0, 0, 1], "%d:" % nid)) for n, v, _ in lines]
             sols.append("(mkRepo KSolution {}%N [{}] {})".format(nid, "; ".join(hs), excl)); nid += 1
         for i, projs in enumerate(u["sources"]):
-            hs = ["({}, {})".format('""', ccand(n, Version(v), "Source", True, True, "", [0, 0, 0, 1], "%d:%s" % (nid, src_label(i, sub)))) for sub, n, v in offered(projs)]
+            hs = ["({}, {})".format('""', ccand(n, Version(v), "Source", True, True, "", [0, 0, 0, 1], "%d:%s" % (nid, src_label(i, sub)))) for sub, n, v in offered(projs, excl_of(u, i))]
             srcs.append("(mkRepo KSource {}%N [{}] [])".format(nid, "; ".join(hs))); nid += 1
         for ws in u["find_links"]:
             fls.append(wheel_repo("KFindLinks", ws, nid)); nid += 1
@@ -1062,7 +1099,7 @@ def oracle(mods, u: Dict[str, Any], rq: Dict[str, Any], base: str) -> Optional[s
         if rec and not excl and req.specifier.contains(rec[0], prereleases=True):
             should.append(i)
     for i, projs in enumerate(u["sources"]):
-        vs = [Version(v) for _, n, v in offered(projs) if pep503(n) == pep503(req.name)]
+        vs = [Version(v) for _, n, v in offered(projs, excl_of(u, i)) if pep503(n) == pep503(req.name)]
         if any(req.specifier.contains(v, prereleases=True) for v in vs):
             should.append(len(u["solutions"]) + i)
     # find-links directories and indexes: a readable installable wheel whose final version satisfies
